@@ -212,8 +212,8 @@ fn run(r: &Run) {
     let t = r.tier;
     let seed = r.seed;
     r.enumerate("size_classes", SIZE_CLASSES.len() as u64 * t.pick(1, 8), move |i, ev| size_class_case(i, seed, ev));
-    r.prop("chunk_diff", t.pick(150_000, 6_000_000), gen::chunk_case, diff_case);
-    r.prop("chunk_faults", t.pick(1_200, 40_000), move || fault_cases(t), fault_case);
+    r.prop("chunk_diff", t.pick(150_000, 20_000_000), gen::chunk_case, diff_case);
+    r.prop("chunk_faults", t.pick(1_200, 120_000), move || fault_cases(t), fault_case);
 }
 
 fn replay(_r: &Run, check: &str, case: &Value) -> Option<Outcome> {
